@@ -1017,6 +1017,11 @@ class PolyhedralTermList(TermList):  # noqa: WPS338
             m = 0
         n_h, m_h = a_help.shape
         helper_present = n_h * m_h > 0
+        if m == 0 and m_h == 0:
+            # no variable at all: every constraint reads 0 <= constant
+            if np.any(np.asarray(b) < 0) or np.any(np.asarray(b_help) < 0):
+                raise ValueError("The constraints are unsatisfiable")
+            return a[:0], b[:0]
         assert n == len(b), "n is {} and b is {}".format(n, b)
         if helper_present:
             assert n_h == len(b_help)
@@ -1105,6 +1110,9 @@ class PolyhedralTermList(TermList):  # noqa: WPS338
         assert m_l == m_r
         assert n_l == len(b_l)
         assert n_r == len(b_r)
+        if m_l == 0:
+            # no variable at all and neither side is empty: every constraint reads 0 <= constant and holds
+            return True
 
         is_refinement = True
         for i in range(n_r):
@@ -1158,7 +1166,8 @@ class PolyhedralTermList(TermList):  # noqa: WPS338
             return False
         n, m = a.shape
         if n * m == 0:
-            return False
+            # constraints without variables read 0 <= constant
+            return bool(n > 0 and np.any(np.asarray(b) < 0))
         assert n == len(b)
         objective = np.zeros((1, m))
         res = linprog(c=objective, A_ub=a, b_ub=b, bounds=(None, None))  # ,options={'tol':0.000001})
